@@ -669,6 +669,33 @@ def run(chk, replay=None):
                     cex({'kind': 'difference_equation'}, {'input': {'b': lst(b2), 'a': lst(a2)}, 'lcapy': str(de),
                                                          'spec': 'difference equation coefficients describe the same system'},
                         'difference_equation differs from the filter coefficients')
+            if not quick or state['case'] % 3 == 0:
+                # DifferenceEquation -> transfer function (z-transform of the equation, solved for Y/X) and back to a filter
+                z0 = rnd_frac(rng, -9, 9, 7)
+                Hde = de.transfer_function().sympy
+                chk.count('filt', 'DifferenceEquation.transfer_function')
+                mvv = drv.ask1('tf.model %s %s %s' % (fstr(z0), lst(b2), lst(a2)))
+                try:
+                    tv = Lc.tofrac(S.cancel(Hde.subs(Lc.z, Lc.rat(z0))))
+                except Exception:   # noqa
+                    tv = None
+                if mvv != 'undef' and tv is not None:
+                    chk.coverage['correspondence']['compared'] += 1
+                    if Fraction(mvv) != tv:
+                        disagree('DifferenceEquation.transfer_function', {'b': lst(b2), 'a': lst(a2), 'z': fstr(z0), 'lcapy': fstr(tv), 'model': mvv})
+                        cex({'kind': 'difference_equation', 'route': 'transfer_function'},
+                            {'input': {'b': lst(b2), 'a': lst(a2), 'z': fstr(z0)}, 'lcapy': {'de': str(de), 'H': str(Hde), 'H(z0)': fstr(tv)},
+                             'spec': 'the transfer function of the difference equation is B(1/z)/A(1/z) = %s' % mvv},
+                            'transfer function derived from the difference equation differs from b/a')
+                F2 = de.dlti_filter()
+                b4 = [Lc.tofrac(c.sympy) for c in F2.b]
+                a4 = [Lc.tofrac(c.sympy) for c in F2.a]
+                r4 = drv.ask1('filt.spec %s %s %s %s' % (lst(b2), lst(a2), lst(b4), lst(a4)))
+                chk.count('filt', 'DifferenceEquation.dlti_filter')
+                if r4 != 'ok':
+                    cex({'kind': 'difference_equation', 'route': 'dlti_filter'}, {'input': {'b': lst(b2), 'a': lst(a2)}, 'lcapy': {'b': lst(b4), 'a': lst(a4)},
+                                                                                'spec': 'same rational function, a[0] = 1: ' + r4},
+                        'filter rebuilt from the difference equation describes a different system')
         except Exception as ex:   # noqa
             chk.count('filt.lcapy-error', 'de:' + type(ex).__name__)
 
@@ -1036,6 +1063,7 @@ def run(chk, replay=None):
     # defining bilateral sum is judged by the Lean spec `dtftSum`) or u[n-d] with |a| < 1 (causal, absolutely summable:
     # compared with the z-transform closed form of the model on the unit circle).  Everything is evaluated in F_P at
     # Omega = pi r, where e^{j Omega} is a root of unity.
+    DANG = [Fraction(1, 3), Fraction(1, 2), Fraction(2, 3), Fraction(1, 4), Fraction(1, 6), Fraction(3, 4)]
     ANG = [Fraction(0), Fraction(1, 2), Fraction(1, 3), Fraction(2, 3), Fraction(1, 4), Fraction(1, 6), Fraction(-1, 3), Fraction(3, 4), Fraction(-1, 6)]
 
     def dt_tokens(t):
@@ -1408,13 +1436,80 @@ def run(chk, replay=None):
                                                             'spec': 'IDFT(DFT(x))[i] = x[i mod N]: ' + lst(want)},
                     'sequence IDFT(DFT(x)) does not return the sequence')
 
+
+    # ------------------------------------------------------------------ directed DTFT families with finite support (generic oracle: the
+    # input expression is evaluated on its support in F_P, Lean forms the bilateral defining sum `dtft.sumlit`)
+    def dtft_generic_case(e, lo, hi, fam):
+        newcase()
+        key = ('dtftgen', str(e))
+        chk.count('dtft.directed', fam)
+        before = bcov.snapshot()
+        try:
+            Xs = Lc.lcapy.nexpr(e).DTFT(Lc.lcapy.Omega).sympy
+        except Exception as ex:   # noqa
+            chk.count('dtft.lcapy-error', fam + ':' + type(ex).__name__)
+            chk.case(key, False)
+            return
+        for (lab, fn, line) in bcov.new_since(before):
+            if lab == 'dtft.py':
+                chk.count('dtft.directed-new-branches', fam)
+        Osyms = [s_ for s_ in Xs.free_symbols if s_.name == 'Omega']
+        if Xs.has(S.Sum) or Xs.has(S.DiracDelta) or (Xs.free_symbols - set(Osyms)):
+            chk.count('degenerate', 'dtft-no-plain-closed-form')
+            chk.case(key, False)
+            return
+        try:
+            xv = [FpEval(Lc, {Lc.n: S.Integer(i)}).ev(e) for i in range(lo, hi + 1)]
+            outside = [FpEval(Lc, {Lc.n: S.Integer(i)}).ev(e) for i in (lo - 2, lo - 1, hi + 1, hi + 2)]
+        except (Unsupported, ZeroDivisionError) as ex:
+            chk.count('degenerate', 'dtft-input-unevaluable:' + str(ex)[:30])
+            chk.case(key, False)
+            return
+        if any(outside):
+            raise common.Infra('directed DTFT family %s: the declared window does not contain the support' % fam)
+        chk.case(key, True)
+        chk.sample({'stream': 'dtft-directed', 'family': fam, 'expr': str(e)[:120], 'lcapy': str(Xs)[:200]})
+        for r in ANG:
+            env = {s_: S.pi * Lc.rat(r) for s_ in Osyms}
+            try:
+                lv = FpEval(Lc, env).ev(Xs)
+            except ZeroDivisionError:
+                chk.count('degenerate', 'dtft-pole-hit')
+                continue
+            except Unsupported as ex:
+                chk.count('degenerate', 'dtft-unevaluable:' + str(ex)[:30])
+                return
+            E = zeta(2 * r.denominator, -r.numerator)
+            sv = int(drv.ask1('dtft.sumlit %d %d %s' % (lo, E, ','.join(str(v) for v in xv))))
+            if lv != sv:
+                cex({'kind': 'dtft', 'finite_support': True, 'sine_with_phase': False, 'family': fam},
+                    {'input': {'expr': str(e), 'Omega': 'pi*%s' % fstr(r), 'window': [lo, hi]}, 'lcapy': str(Xs),
+                     'lcapy_value_mod_P': lv, 'spec_value_mod_P': sv, 'P': FP,
+                     'spec': 'X(Omega) = sum_n x[n] exp(-j Omega n) over the support; x[n] from the input expression, sum by Lean (dtft.sumlit)'},
+                    'DTFT differs from the defining sum on the unit circle')
+                return
+
+    stream('dtftdir')
+    if gen and cur[0]:
+        n_ = Lc.n
+        dtrect_ = Lc.lcapy.extrafunctions.dtrect
+        wins = [(0, 5), (2, 3), (-1, 4), (3, 7), (0, 1), (-2, 6)]
+        for (c, b) in (wins if not quick else rng.sample(wins, 3)):
+            l_ = c - b // 2
+            guarded(dtft_generic_case, Lc.rat(rnd_frac(rng)) * dtrect_((n_ - c) / S.Integer(b)), l_, l_ + b - 1, 'dtrect window N %s' % ('odd' if b % 2 else 'even'))
+        for i in range(3 if quick else 12):
+            # products handled through the impulse / n / exp(j a n) rules
+            d = rng.randint(-3, 4)
+            r = rng.choice(DANG)
+            e = Lc.rat(rnd_frac(rng)) * S.exp(S.I * S.pi * Lc.rat(r) * n_ + S.I * S.pi / 3) * (n_ if i % 2 else 1) * Lc.UI(n_ - d)
+            guarded(dtft_generic_case, e, d, d, 'exp(j a n) * impulse')
+
     stream('seqorg')
     for i in (range(32 if quick else 240) if (gen and cur[0]) else []):
         vals = [rnd_frac(rng, -4, 4, 2, nonzero=(j == 0)) for j in range(rng.randint(1, 5))]
         guarded(seqorg_case, vals, [0, 0, 1, 2, 3, -1, -2, rng.randint(-4, 4)][i % 8])
 
     # ------------------------------------------------------------------ DTFT rule cascade (model of DTFTTransformer.term), incl. combs
-    DANG = [Fraction(1, 3), Fraction(1, 2), Fraction(2, 3), Fraction(1, 4), Fraction(1, 6), Fraction(3, 4)]
 
     def eip(r):                                   # image of exp(i pi r)
         return zeta(2 * r.denominator, r.numerator)
@@ -1522,15 +1617,20 @@ def run(chk, replay=None):
                 chk.coverage['correspondence']['compared'] += 1
                 if mc != lc_:
                     disagree('dtft2.comb', {'terms': toks, 'expr': str(e), 'lcapy': str(Xs)[:300], 'lcapy_combs': lc_, 'model_combs': mc})
-            if finite:
-                lo = min(t[4] for t in terms)
-                ln = max(t[4] for t in terms) - lo + 1
-                sv = int(drv.ask1('dtft2.spec %d %d %d | %s' % (lo, ln, E, toks)))
+            summable = all(t[3] == 'step' and abs(t[2]) < 1 for t in terms)
+            if finite or summable:
+                if finite:
+                    lo = min(t[4] for t in terms)
+                    ln = max(t[4] for t in terms) - lo + 1
+                    sv = int(drv.ask1('dtft2.spec %d %d %d | %s' % (lo, ln, E, toks)))
+                else:
+                    sv = int(rep_[0])     # |a| < 1: the model's closed form IS the sum (dtft_rule_cascade_sound + the analytic anchor)
                 if lv != sv:
-                    cex({'kind': 'dtft', 'finite_support': True, 'sine_with_phase': any(t[5] == 'sin' and t[7] != 0 for t in terms)},
+                    cex({'kind': 'dtft', 'finite_support': finite, 'sine_with_phase': any(t[5] == 'sin' and t[7] != 0 for t in terms)},
                         {'input': {'expr': str(e), 'terms': toks, 'Omega': 'pi*%s' % fstr(r)}, 'lcapy': str(Xs),
                          'lcapy_value_mod_P': lv, 'spec_value_mod_P': sv, 'P': FP,
-                         'spec': 'X(Omega) = sum_n x[n] exp(-j Omega n) over the finite support (dtftSum), in F_P'},
+                         'spec': ('X(Omega) = sum_n x[n] exp(-j Omega n) over the finite support (dtftSum), in F_P' if finite else
+                                  'X(Omega) = the geometric-series closed form of the absolutely summable sequence (|a| < 1), in F_P')},
                         'DTFT differs from the defining sum on the unit circle')
                     return
 
@@ -1622,6 +1722,66 @@ def run(chk, replay=None):
         if Fraction(mv) != lv:
             disagree('discretize', {'H': str(H), 'method': method, 'lcapy': fstr(lv), 'model': mv, 'E': fstr(E0), 'dt': fstr(d0), 'z': fstr(z0)})
 
+
+    # ------------------------------------------------------------------ IDTFT(DTFT(x)) = x, all frequency variables
+    def idtft_case(e, domain, lo, hi, fam, shifted):
+        newcase()
+        key = ('idtft', str(e), domain)
+        chk.count('idtft.family', fam + ' [' + domain + ']')
+        var = {'f': Lc.lcapy.f, 'Omega': Lc.lcapy.Omega, 'F': Lc.lcapy.F}[domain]
+        try:
+            X = Lc.lcapy.nexpr(e).DTFT(var)
+            xs = X.IDTFT().sympy
+        except Exception as ex:   # noqa
+            chk.count('idtft.lcapy-error', type(ex).__name__)
+            chk.case(key, False)
+            return
+        if xs.has(S.Integral) or xs.has(S.Sum):
+            chk.count('degenerate', 'idtft-no-closed-form')
+            chk.case(key, False)
+            return
+        try:
+            want = [FpEval(Lc, {Lc.n: S.Integer(i)}).ev(e) for i in range(lo, hi + 1)]
+            got = [FpEval(Lc, {}).ev(S.simplify(xs.subs(Lc.n, i))) for i in range(lo, hi + 1)]
+        except (Unsupported, ZeroDivisionError) as ex:
+            if xs.free_symbols - {Lc.n}:
+                got = 'free symbols %s' % sorted(str(v) for v in xs.free_symbols - {Lc.n})
+            else:
+                chk.count('degenerate', 'idtft-unevaluable:' + str(ex)[:30])
+                chk.case(key, False)
+                return
+        chk.case(key, True)
+        chk.sample({'stream': 'idtft', 'expr': str(e)[:120], 'domain': domain, 'lcapy_dtft': str(X)[:120], 'lcapy_idtft': str(xs)[:160]})
+        if got != want:
+            cex({'kind': 'idtft-dtft', 'domain': domain, 'shifted_comb': shifted},
+                {'input': {'expr': str(e), 'domain': domain, 'n': [lo, hi]}, 'lcapy': {'dtft': str(X), 'idtft': str(xs)},
+                 'lcapy_values_mod_P': got, 'spec_values_mod_P': want, 'spec': 'IDTFT(DTFT(x))[n] = x[n] for every n in the window'},
+                'inverse DTFT of the DTFT does not recover the sequence')
+
+    stream('idtft')
+    if gen and cur[0]:
+        n_ = Lc.n
+        doms = ['f', 'Omega', 'F']
+        for i in range(9 if quick else 60):
+            dom = doms[i % 3]
+            kind = i % 3 if quick else rng.randint(0, 2)
+            if i % 9 >= 6:
+                kind = (kind + 1) % 3
+            if kind == 0:       # finite support: weighted, delayed and advanced impulses
+                e = sum((Lc.rat(rnd_frac(rng)) * Lc.UI(n_ - d) for d in rng.sample(range(-3, 5), rng.randint(1, 3))), S.Integer(0))
+                guarded(idtft_case, e, dom, -4, 6, 'impulses', False)
+            elif kind == 1:     # constants and complex exponentials / sinusoids: Dirac combs, shifted by the frequency
+                r, sft = rng.choice(DANG), rng.choice([Fraction(0), Fraction(1, 4), Fraction(1, 3)])
+                f_ = rng.choice([S.cos, S.sin])
+                e = Lc.rat(rnd_frac(rng)) * f_(S.pi * Lc.rat(r) * n_ + S.pi * Lc.rat(sft))
+                if rng.random() < 0.4:
+                    e = e + Lc.rat(rnd_frac(rng))
+                guarded(idtft_case, e, dom, -3, 5, 'sinusoid', True)
+            else:
+                r = rng.choice(DANG)
+                e = Lc.rat(rnd_frac(rng)) * S.exp(S.I * S.pi * Lc.rat(r) * n_) if rng.random() < 0.6 else S.Integer(rng.randint(1, 4))
+                guarded(idtft_case, e, dom, -3, 5, 'complex exponential' if e.has(n_) else 'constant', bool(e.has(n_)))
+
     stream('disc')
     METHODS = ['bilinear', 'forward-euler', 'backward-euler', 'gbf', 'simpson', 'tustin', 'euler', 'backward-diff']
     for i in (range(24 if quick else 160) if (gen and cur[0]) else []):
@@ -1638,6 +1798,7 @@ def run(chk, replay=None):
     chk.coverage['slowest_cases'] = sorted(slow, reverse=True)[:12]
     chk.coverage['stream_seconds_detail'] = {k_: round(v_, 1) for k_, v_ in sub_t.items()}
     bt = bcov.table()
+    bt['unreached'] = [u_ + (' -- not selectable: make_transform hard-wires simp_method = 1' if ' simp_rat ' in u_ else '') for u_ in bt['unreached']]
     # keep the evidence compact: per-file summary, the unreached list, and the full rows of the DFT/DTFT case analyses
     chk.coverage['branch_coverage'] = {'instrument': bt['instrument'], 'active': bt['active'], 'summary': bt['summary'],
                                        'unreached': bt['unreached'],
